@@ -66,6 +66,25 @@ with pnames_bc (sh : option string) (b : branches) : list (list key) :=
 (* at most once along every path *)
 Definition aff (sh : option string) (f : form) : Prop := Forall (NoDup (A:=key)) (pnames sh f).
 
+(* ... in the term and in every scope inside it *)
+Fixpoint affr (sh : option string) (f : form) : Prop :=
+  aff sh f /\
+  match f with
+  | FRecv p c fr k => if pdes sh fr then affr (Some (ident c)) k else affr sh k
+  | FCase fr bs => if pdes sh fr then affr_bp bs else affr_bc sh bs
+  | FNew y b k => affr None b /\ affr sh k
+  | FWait _ k | FDrop _ k | FPrint _ k | FSplit _ _ _ k => affr sh k
+  | FShift y fr k => if pdes sh fr then affr (Some (ident y)) k else affr sh k
+  | _ => True
+  end
+with affr_bp (b : branches) : Prop :=
+  match b with BrNil => True | BrCons _ p k r => affr (Some (ident p)) k /\ affr_bp r end
+with affr_bc (sh : option string) (b : branches) : Prop :=
+  match b with BrNil => True | BrCons _ p k r => affr sh k /\ affr_bc sh r end.
+
+Lemma affr_aff sh f : affr sh f -> aff sh f.
+Proof. destruct f; simpl; tauto. Qed.
+
 (* renaming of keys: the variable x becomes the channel kc *)
 Definition ren (x : string) (kc : cid) (q : key) : key :=
   match q with KV y => if String.eqb y x then KC kc else q | KC _ => q end.
@@ -74,6 +93,23 @@ Lemma ren_id_notin x kc l : KV x ∉ l -> map (ren x kc) l = l.
 Proof.
   induction l as [|q l IH]; simpl; intros H; auto. apply not_elem_of_cons in H as [H1 H2]. rewrite IH by auto. f_equal.
   destruct q as [k|y]; simpl; auto. destruct (String.eqb y x) eqn:E; auto. apply String.eqb_eq in E. congruence.
+Qed.
+
+Lemma ren_inj_on x kc (l : list key) q1 q2 : KC kc ∉ l -> q1 ∈ l -> q2 ∈ l -> ren x kc q1 = ren x kc q2 -> q1 = q2.
+Proof.
+  intros Hf H1 H2. destruct q1 as [k1|y1], q2 as [k2|y2]; simpl; auto.
+  - destruct (String.eqb y2 x); [intros [= ->]; contradiction|auto].
+  - destruct (String.eqb y1 x); [intros [= <-]; contradiction|auto].
+  - destruct (String.eqb y1 x) eqn:E1, (String.eqb y2 x) eqn:E2; try discriminate; auto.
+    apply String.eqb_eq in E1, E2. congruence.
+Qed.
+
+Lemma NoDup_ren x kc (l : list key) : KC kc ∉ l -> NoDup l -> NoDup (map (ren x kc) l).
+Proof.
+  intros Hf Hn. induction Hn as [|q l Hq Hn IH]; simpl; constructor.
+  - intros Hin. apply in_map_iff in Hin as (q' & E & Hq'). apply Hq.
+    rewrite (ren_inj_on x kc (q :: l) q q' Hf); auto; [left|right; by apply elem_of_list_In].
+  - apply IH. intros H. apply Hf. by right.
 Qed.
 
 Lemma rmv_app bs l1 l2 : rmv bs (l1 ++ l2) = rmv bs l1 ++ rmv bs l2.
@@ -129,6 +165,108 @@ Proof. intros Hb. rewrite !map_map. apply map_ext. intros pk. by rewrite rmv_ren
 Lemma paths_app x kc pre P :
   map (app (map (ren x kc) pre)) (map (map (ren x kc)) P) = map (map (ren x kc)) (map (app pre) P).
 Proof. rewrite !map_map. apply map_ext. intros pk. by rewrite map_app. Qed.
+
+(* ------------------------------------------------------------------ paths and the channels of a term *)
+Lemma uname_chan sh n k : In (KC k) (uname sh n) <-> In k (name_chans n).
+Proof.
+  unfold uname, name_chans. destruct (chan n) as [d|]; simpl.
+  - split; intros [H|[]]; left; congruence.
+  - destruct (prov_ref sh n); simpl; intuition discriminate.
+Qed.
+
+Lemma rmv_chan bs l k : In (KC k) (rmv bs l) <-> In (KC k) l.
+Proof. unfold rmv. rewrite filter_In. tauto. Qed.
+
+Lemma ne_nonempty l : ne l <> [].
+Proof. destruct l; simpl; discriminate. Qed.
+Lemma in_ne l (a : list key) : In a l -> In a (ne l).
+Proof. destruct l; simpl; auto. Qed.
+Lemma in_ne_inv l (a : list key) : In a (ne l) -> In a l \/ (l = [] /\ a = []).
+Proof. destruct l; simpl; [intros [<-|[]]; auto|auto]. Qed.
+
+Lemma in_crossk l1 l2 (a : list key) : In a (crossk l1 l2) <-> exists a1 a2, In a1 l1 /\ In a2 l2 /\ a = a1 ++ a2.
+Proof.
+  unfold crossk. rewrite in_flat_map. split.
+  - intros (a1 & H1 & H). apply in_map_iff in H as (a2 & <- & H2). eauto.
+  - intros (a1 & a2 & H1 & H2 & ->). exists a1. split; auto. apply in_map_iff. eauto.
+Qed.
+
+Lemma ne_has l : exists pi : list key, In pi (ne l).
+Proof. destruct l as [|a l]; simpl; eauto. Qed.
+
+Lemma pnames_has_mut :
+  (forall f sh, exists pi, In pi (pnames sh f)) /\ (forall b : branches, True).
+Proof.
+  apply form_branches_ind; simpl; auto.
+  - intros; eauto.
+  - intros p c fr f IH sh. destruct (pdes sh fr).
+    + destruct (IH (Some (ident c))) as [pk Hpk]. eexists. apply in_map_iff. eauto.
+    + destruct (IH sh) as [pk Hpk]. eexists. apply in_map_iff. eauto.
+  - intros; eauto.
+  - intros fr b _ sh. destruct (pdes sh fr); [apply ne_has|].
+    destruct (ne_has (pnames_bc sh b)) as [pk Hpk]. eexists. apply in_map_iff. eauto.
+  - intros x b IHb f IHf sh. destruct (IHb None) as [pb Hb]. destruct (IHf sh) as [pk Hk].
+    eexists. apply in_crossk. exists pb, (rmv [x] pk). split; auto. split; auto. apply in_map_iff. eauto.
+  - intros; eauto.
+  - intros c f IH sh. destruct (IH sh) as [pk Hpk]. eexists. apply in_map_iff. eauto.
+  - intros; eauto.
+  - intros x y fr f IH sh. destruct (IH sh) as [pk Hpk]. eexists. apply in_map_iff. eauto.
+  - intros; eauto.
+  - intros; eauto.
+  - intros x fr f IH sh. destruct (pdes sh fr); [apply IH|].
+    destruct (IH sh) as [pk Hpk]. eexists. apply in_map_iff. eauto.
+  - intros c f IH sh. destruct (IH sh) as [pk Hpk]. eexists. apply in_map_iff. eauto.
+Qed.
+Lemma pnames_has sh f : exists pi, In pi (pnames sh f).
+Proof. apply pnames_has_mut. Qed.
+
+(* every channel on a path occurs in the term ... *)
+Lemma path_chans_mut :
+  (forall f sh pi k, In pi (pnames sh f) -> In (KC k) pi -> In k (form_chans f)) /\
+  (forall b, (forall pi k, In pi (pnames_bp b) -> In (KC k) pi -> In k (brs_chans b)) /\
+             (forall sh pi k, In pi (pnames_bc sh b) -> In (KC k) pi -> In k (brs_chans b))).
+Proof.
+  apply form_branches_ind; simpl.
+  - intros a b c sh pi k [<-|[]] H. rewrite !in_app_iff in *. rewrite !uname_chan in H. tauto.
+  - intros p c fr f IH sh pi k Hpi H. rewrite in_app_iff. destruct (pdes sh fr).
+    + apply in_map_iff in Hpi as (pk & <- & Hpk). apply rmv_chan in H. right. eapply IH; eauto.
+    + apply in_map_iff in Hpi as (pk & <- & Hpk). apply in_app_iff in H as [H|H].
+      * left. by apply uname_chan in H.
+      * apply rmv_chan in H. right. eapply IH; eauto.
+  - intros a l c sh pi k [<-|[]] H. rewrite !in_app_iff in *. rewrite !uname_chan in H. tauto.
+  - intros fr b [IHp IHc] sh pi k Hpi H. rewrite in_app_iff. destruct (pdes sh fr).
+    + apply in_ne_inv in Hpi as [Hpi|[_ ->]]; [right; eapply IHp; eauto|destruct H].
+    + apply in_map_iff in Hpi as (pk & <- & Hpk). apply in_app_iff in H as [H|H].
+      * left. by apply uname_chan in H.
+      * apply in_ne_inv in Hpk as [Hpk|[_ ->]]; [right; eapply IHc; eauto|destruct H].
+  - intros x b IHb f IHf sh pi k Hpi H. apply in_crossk in Hpi as (a1 & a2 & H1 & H2 & ->).
+    apply in_map_iff in H2 as (pk & <- & Hpk). rewrite in_app_iff. apply in_app_iff in H as [H|H].
+    + left. eapply IHb; eauto.
+    + apply rmv_chan in H. right. eapply IHf; eauto.
+  - intros c sh pi k [<-|[]] H. by apply uname_chan in H.
+  - intros c f IH sh pi k Hpi H. apply in_map_iff in Hpi as (pk & <- & Hpk). rewrite in_app_iff.
+    apply in_app_iff in H as [H|H]; [left; by apply uname_chan in H|right; eapply IH; eauto].
+  - intros a b d sh pi k [<-|[]] H. rewrite !in_app_iff in *. rewrite !uname_chan in H. tauto.
+  - intros x y fr f IH sh pi k Hpi H. apply in_map_iff in Hpi as (pk & <- & Hpk). rewrite in_app_iff.
+    apply in_app_iff in H as [H|H]; [left; by apply uname_chan in H|]. apply rmv_chan in H. right. eapply IH; eauto.
+  - intros fn args pt sh pi k [<-|[]] H. apply in_flat_map in H as (a & Ha & H). apply in_flat_map. exists a.
+    split; auto. by apply uname_chan in H.
+  - intros a c sh pi k [<-|[]] H. rewrite !in_app_iff in *. rewrite !uname_chan in H. tauto.
+  - intros x fr f IH sh pi k Hpi H. rewrite in_app_iff. destruct (pdes sh fr).
+    + right. eapply IH; eauto.
+    + apply in_map_iff in Hpi as (pk & <- & Hpk). apply in_app_iff in H as [H|H].
+      * left. by apply uname_chan in H.
+      * apply rmv_chan in H. right. eapply IH; eauto.
+  - intros c f IH sh pi k Hpi H. apply in_map_iff in Hpi as (pk & <- & Hpk). rewrite in_app_iff.
+    apply in_app_iff in H as [H|H]; [left; by apply uname_chan in H|right; eapply IH; eauto].
+  - intros l f IH sh pi k Hpi H. eapply IH; eauto.
+  - split; intros; contradiction.
+  - intros l p f IHf r [IHp IHc]. split.
+    + intros pi k Hpi H. rewrite in_app_iff. apply in_app_iff in Hpi as [Hpi|Hpi]; [left; eapply IHf; eauto|right; eapply IHp; eauto].
+    + intros sh pi k Hpi H. rewrite in_app_iff. apply in_app_iff in Hpi as [Hpi|Hpi].
+      * apply in_map_iff in Hpi as (pk & <- & Hpk). apply rmv_chan in H. left; eapply IHf; eauto.
+      * right; eapply IHc; eauto.
+Qed.
 
 Section Paths.
 Variable D : tenv.
